@@ -19,6 +19,7 @@ import (
 	"go/ast"
 	"go/token"
 	"go/types"
+	"slices"
 
 	"go.uber.org/nilaway/annotation"
 	"go.uber.org/nilaway/guard"
@@ -686,6 +687,14 @@ func weakPropagateRichChecks(graph *cfg.CFG, richCheckBlocks [][]RichCheckEffect
 // then tempers its computation of checks at a given block via intersection at control flow points by
 // including exactly those checks that are present in every predecessor of the block that is reachable
 // from the originator block of the check.
+//
+// This is a "must" property, so the solution wanted is the greatest one: a check only has to be
+// dropped from a block if some path from its originator block really invalidates it. We hence start
+// optimistically, with every check present at every block that its originator block reaches, and
+// iterate downwards, removing a check from a block when it is invalidated in that block or missing
+// from a relevant predecessor. (Iterating upwards from the initial array instead would never let a
+// check pass a block that lies on a cycle with one of its own predecessors - e.g. the header of a
+// loop enclosing the loop in which the check is created - even if nothing invalidates it.)
 func propagateRichChecks(graph *cfg.CFG, richCheckBlocks [][]RichCheckEffect) [][]RichCheckEffect {
 	n := len(graph.Blocks)
 	if len(richCheckBlocks) != n {
@@ -695,10 +704,29 @@ func propagateRichChecks(graph *cfg.CFG, richCheckBlocks [][]RichCheckEffect) []
 
 	effectReaches := weakPropagateRichChecks(graph, richCheckBlocks)
 
-	currBlocks := richCheckBlocks
+	preds := genPreds(graph)
+
+	// Optimistic start: each check is assumed to be present at the end of every block with a
+	// predecessor that is reachable from the originator block of the check. The effects are
+	// visited in block order to keep the result deterministic.
+	currBlocks := make([][]RichCheckEffect, n)
+	for i := range currBlocks {
+		currBlocks[i] = richCheckBlocks[i]
+	}
+	for _, effects := range richCheckBlocks {
+		for _, effect := range effects {
+			for i := range currBlocks {
+				for _, predIndex := range preds[i] {
+					if effectReaches[effect][predIndex] {
+						currBlocks[i] = mergeSlices(false, currBlocks[i], []RichCheckEffect{effect})
+						break
+					}
+				}
+			}
+		}
+	}
 	nextBlocks := make([][]RichCheckEffect, n)
 
-	preds := genPreds(graph)
 	roundCount := 0
 
 	done := false
@@ -771,8 +799,15 @@ func propagateRichChecks(graph *cfg.CFG, richCheckBlocks [][]RichCheckEffect) []
 				}
 			}
 
-			nextBlocks[i] = mergeSlices(false, currBlocks[i], stripNoops(predRichCheckEffects))
-			if len(nextBlocks[i]) > len(currBlocks[i]) {
+			// Keep the order of currBlocks[i]; drop the checks that are neither created in this
+			// block nor flow in from its predecessors.
+			incoming := mergeSlices(false, richCheckBlocks[i], stripNoops(predRichCheckEffects))
+			for _, effect := range currBlocks[i] {
+				if slices.Contains(incoming, effect) {
+					nextBlocks[i] = append(nextBlocks[i], effect)
+				}
+			}
+			if len(nextBlocks[i]) < len(currBlocks[i]) {
 				done = false
 			}
 		}
